@@ -12,15 +12,17 @@ BASE_NOTE = ("Trusted: Coq 8.16.1 kernel incl. vm_compute (no native_compute); n
 
 # id -> (claimed?, technique, level text, extra note)
 CHECKS = {
-    "C01": ("Coq theorem by induction on the schema (C01_validity_plain: parse_element then call = Spec6.v6, all keywords, any nesting, any parse state/oracle) + generated-table agreement + vm_compute correspondence of model, Draft-6 reference and implementation",
-            "C01_validity_plain / C01_accepts_iff_valid: for every schema of the class-free fragment (C01Plain.plain, decided by the executable Plain.plainb proved sound), every value, "
-            "regex/format oracle, parse state and configuration that parses the three list-valued composition keywords (proved of the regenerated table), the element returned by the "
-            "model parser accepts exactly when the Draft-6 reading of the raw schema (Spec6.v6, one clause per keyword) holds and raises the validation error exactly when it does not, "
-            "unless the call crashes; covers type (incl. lists), enum/const, all thresholds, multipleOf, pattern, format, items/additionalItems/contains/uniqueItems, "
-            "properties/patternProperties/additionalProperties/required/propertyNames/dependencies, anyOf/oneOf/allOf/not and their restructuring.  The model is tied to the code by "
-            "regenerated tables and by running model, reference and implementation on the same (schema, value) cases; the run reports on how many cases the theorem applies (plainb).",
-            "full on the class-free fragment (about half of the generated cases); schemas with type 'object' (named classes, de-duplication through the parse state, the required-with-default waiver) "
-            "are decided by the correspondence run and the Spec6 oracle only"),
+    "C01": ("Coq theorems by induction on the schema (C01_validity_plain, C01_validity_classes: parse_element then call = Spec6.v6 / valid6, all keywords, any nesting, object classes with the parse state threaded) + generated-table agreement + vm_compute correspondence of model, Draft-6 reference and implementation",
+            "C01_validity_plain (class-free fragment, any parse state) and C01_validity_classes (schemas with named object classes whose names do not repeat along the parse, so de-duplication "
+            "returns each class itself): for every schema of the fragment (C01Plain.plain / walk, decided by the executable Plain.in_fragment proved sound), every value, regex/format oracle "
+            "and configuration whose composition order is exactly the three list-valued keywords (proved of the regenerated table), the element returned by the model parser accepts exactly "
+            "when the Draft-6 reading of the raw schema (Spec6.v6, one clause per keyword; valid6 = with the documented required-with-default waiver on typed objects) holds and raises the "
+            "validation error exactly when it does not, unless the call crashes; covers type (incl. lists), enum/const, all thresholds, multipleOf, pattern, format, "
+            "items/additionalItems/contains/uniqueItems, properties/patternProperties/additionalProperties/required/propertyNames/dependencies, anyOf/oneOf/allOf/not and their restructuring, "
+            "ObjectMeta classes.  The model is tied to the code by regenerated tables and by running model, reference and implementation on the same (schema, value) cases; the run "
+            "reports on how many cases each theorem applies (quick tier: 301 of 380 schemas).",
+            "full on the fragment (about four fifths of the generated cases); outside it (repeated class names - de-duplication substitutes an ==-equal class and == is not a verdict congruence, K17; "
+            "colliding attribute names K1; undeclared required names K5; type lists containing 'object') the verdicts are decided by the correspondence run and the Spec6 oracle only"),
     "C11": ("Coq theorem (permutation + topological order + cycle refusal of the emission loop, all finite dependency maps) + regenerated paths table + vm_compute correspondence on identity graphs",
             "The emission loop of orderer() is proved, for every dependency map, to yield a permutation in dependency order or to refuse a cycle; "
             "get_children/get_object_classes are tied to the code by the generated paths table and by running the model on the identity graph of random element trees.",
